@@ -318,6 +318,22 @@ class C12(Prop):
             else:
                 degraded = False
                 flavour = None
+        if not degraded and not spares and bystander is None and nn >= 2 and rng.random() < 0.08:
+            # one failure, the server is healthy again at once, a little more than retry_timeout passes (far less
+            # than dead_timeout): the very next operation - a multi-key one - is sent to it like any other
+            ck["retry_attempts"] = rng.choice([1, 2])
+            victim = rng.randrange(nn)
+            owned = [k for k in keys if refhash.owner(names, split_pair(k)[0]) == names[victim]]
+            if owned:
+                steps.append({"t": "node", "id": victim, "health": rng.choice(["refuse", "reset"])})
+                steps.append({"t": "call", "m": "get", "a": [E(rng.choice(owned))], "k": {}, "tag": "preamble"})
+                steps.append({"t": "node", "id": victim, "health": "up"})
+                steps.append({"t": "advance", "dt": rng.choice([1.5, 5, 30])})
+                steps.append({"t": "wipe"})
+                start = len(steps)
+                ks0 = list(dict.fromkeys(rng.sample(keys, min(len(keys), rng.randint(1, 6))) + [rng.choice(owned)]))
+                steps.append({"t": "call", "m": rng.choice(["get_many", "gets_many"]), "a": [E(ks0)], "k": {}})
+                ck["default_noreply"] = False
 
         small_items = not degraded and rng.random() < 0.2
         if small_items:
